@@ -1,5 +1,5 @@
 /- L0 facts about KeltnerChannel::reset (split from Lemmas/KeltnerChannel.lean so that a change to one method only invalidates the facts about that method) -/
-import TaRs.Lemmas.KeltnerChannel
+import TaRs.Lemmas.Core.KeltnerChannel
 import TaRs.Lemmas.Reset.ExponentialMovingAverage
 import TaRs.Lemmas.Reset.AverageTrueRange
 set_option linter.unusedSectionVars false
